@@ -50,6 +50,7 @@ type opResult struct {
 }
 
 type scenario struct {
+	ForceAt  int
 	Seed     uint64
 	FileMode bool
 	Clients  [][]cop
@@ -154,6 +155,7 @@ func runScenario(res *Result, rng *Rng, sc scenario, idx int) error {
 	// concurrent phase
 	nc := len(sc.Clients)
 	sched := NewSched(rng, nc, sc.Budget)
+	sched.ForceAt = sc.ForceAt
 	sched.Num, sched.Den = 1, 6
 	sched.Hot = func(op StorageOp) bool {
 		// right before an entry is written or HEAD is moved
@@ -424,7 +426,7 @@ func scenarioReplay(sc scenario, log []string, sched *Sched) map[string]any {
 	if len(tr) > 400 {
 		tr = tr[:400]
 	}
-	return map[string]any{"clients": cl, "budget": sc.Budget, "filemode": sc.FileMode, "outcomes": log, "schedule_prefix": tr}
+	return map[string]any{"clients": cl, "budget": sc.Budget, "preempt_client0_at_storage_op": sc.ForceAt, "filemode": sc.FileMode, "outcomes": log, "schedule_prefix": tr}
 }
 
 func checkContents(obs *LakeEnv, branch string, want []string, fail func(sig, detail, exp, got string)) {
@@ -555,7 +557,37 @@ func c12(o Opts) error {
 			return err
 		}
 	}
-	res.Rule = "2-4 clients (separate lake handles on one storage) x 1-3 operations each over {load, delete, compact, vector add, delete-where, merge, create/rename pool, create/remove branch}; a token scheduler switches clients at storage operations following the seeded schedule (preemption budget 1-6); after the run a fresh handle checks: every branch readable, contents = initial + acknowledged loads - acknowledged deletes, every acknowledged commit exactly once in its branch log, names unique, failed operations invisible, a follow-up load succeeds; non-trivial = at least one context switch happened"
+	// systematic single-preemption exploration: two clients, one operation each on
+	// the same journal; client 0 is preempted at its k-th storage operation, for every k
+	pairs := [][2]cop{
+		{{Kind: "load", Branch: "main", Vals: []string{"{k:1,j:0,id:7001}"}}, {Kind: "load", Branch: "main", Vals: []string{"{k:2,j:1,id:7002}"}}},
+		{{Kind: "createpool", Name: "dup"}, {Kind: "createpool", Name: "dup"}},
+		{{Kind: "merge"}, {Kind: "load", Branch: "main", Vals: []string{"{k:3,j:0,id:7003}"}}},
+		{{Kind: "delete", Branch: "main", Pick: 0}, {Kind: "load", Branch: "main", Vals: []string{"{k:4,j:0,id:7004}"}}},
+		{{Kind: "createbranch", Name: "bz"}, {Kind: "createbranch", Name: "bz"}},
+		{{Kind: "deletewhere", Branch: "main", Pred: "id < 100 and k > 4"}, {Kind: "compact", Branch: "main", Pick: 0}},
+	}
+	npairs := 3
+	if o.Tier == "thorough" {
+		npairs = len(pairs)
+	}
+	for pi := 0; pi < npairs; pi++ {
+		pr := pairs[(pi+int(o.Seed))%len(pairs)]
+		// the number of storage operations of client 0's operation varies; explore k = 1..60 and stop
+		// when the preemption point is no longer reached
+		for k := 1; k <= 60; k++ {
+			sc := scenario{ForceAt: k, Clients: [][]cop{{pr[0]}, {pr[1]}}}
+			before := res.Dist["context_switches"]
+			if err := runScenario(res, rng, sc, 100000+pi*100+k); err != nil {
+				return err
+			}
+			res.Count("single_preemption_runs")
+			if res.Dist["context_switches"] == before && k > 3 {
+				break // client 0 has fewer than k storage operations
+			}
+		}
+	}
+	res.Rule = "systematic: for pairs of operations on one journal, client 0 preempted at EVERY one of its storage operations while client 1 runs its whole operation; random: 2-4 clients (separate lake handles on one storage) x 1-3 operations each over {load, delete, compact, vector add, delete-where, merge, create/rename pool, create/remove branch}; a token scheduler switches clients at storage operations following the seeded schedule (preemption budget 1-6); after the run a fresh handle checks: every branch readable, contents = initial + acknowledged loads - acknowledged deletes, every acknowledged commit exactly once in its branch log, names unique, failed operations invisible, a follow-up load succeeds; non-trivial = at least one context switch happened"
 	var keys []string
 	for k := range res.Dist {
 		keys = append(keys, k)
